@@ -49,7 +49,8 @@ YANG_A = '''module a { yang-version 1.1; namespace "urn:a"; prefix a;
     leaf-list ln { type int32; }
     list l1 { key k; leaf k { type string; } leaf v { type int32; } leaf w { type string; default "w0"; }
       container in { leaf x { type string; } leaf y { type int32; default 3; } }
-      leaf-list t { type string; ordered-by user; } }
+      leaf-list t { type string; ordered-by user; }
+      choice ch { case one { leaf ca { type string; } } case two { leaf cb { type string; } } } }
     list l2 { key "k1 k2"; leaf k1 { type string; } leaf k2 { type int32; } leaf v { type string; } }
     list lu { key k; ordered-by user; leaf k { type uint8; } leaf v { type decimal64 { fraction-digits 1; } } }
     container np { leaf z { type string; default "zz"; } }
@@ -57,7 +58,9 @@ YANG_A = '''module a { yang-version 1.1; namespace "urn:a"; prefix a;
   }
   leaf tl { type string; }
   leaf-list tll { type string; ordered-by user; }
-  list top { key id; leaf id { type string; } leaf val { type int32; } container tc { leaf z { type string; } } }
+  list top { key id; leaf id { type string; } leaf val { type int32; }
+    container tc { leaf z { type string; } leaf sel { type string; }
+      list e { key k; leaf k { type string; } leaf v { type string; } } } }
 }'''
 YANG_B = '''module b { yang-version 1.1; namespace "urn:b"; prefix b; import a { prefix a; }
   augment /a:c { leaf s { type string; } leaf bx { type string; }
@@ -71,7 +74,7 @@ YANGS = hexs(YANG_A) + "," + hexs(YANG_B)
 # (module, name) -> children in schema order; leaves: type tag
 STR_POOL = ["a", "b", "c", "x", "y", "p\tq", "l1\nl2", "5", "5.0", "05", "-1.5", " 5 ", "1e3", "+5", "0x10", "inf", "nan", "true", "false",
             "a b", "é", "äöx", "x'y", "12", "2.5", "abc", "ab", "", "0", "-0", "1", "2", "3", "10", "w0", "zz", "7"]
-KEY_POOL = ["a", "b", "c", "x", "5", "5.0", "05", " 5", "1e3", "true", "é", "12", "2", "1", "k'q", "-1", "0", "abc"]
+KEY_POOL = ["a", "b", "c", "x", "", "5", "5.0", "05", " 5", "1e3", "true", "é", "12", "2", "1", "k'q", "-1", "0", "abc"]
 INT_POOL = [0, 1, 2, 3, 5, 7, 10, 12, -1, -3, 100, 255, 1000, -7]
 DEC_POOL = ["2.5", "0.25", "-1.5", "3", "10.75", "0.1", "-0.05", "7.0"]
 
@@ -125,6 +128,8 @@ class Inst:
                 ch.append(("a", "in", inn))
             for v in rng.sample(STR_POOL, rng.choice([0, 0, 1, 2, 3])):
                 ch.append(("a", "t", v))
+            if r() < 0.5:
+                ch.append(("a", rng.choice(["ca", "cb"]), k if r() < 0.5 else rng.choice(KEY_POOL)))
             if r() < 0.3:
                 ch.append(("b", "v", rng.choice(STR_POOL)))
             c.append(("a", "l1", ch))
@@ -168,8 +173,16 @@ class Inst:
             ch = [("a", "id", k)]
             if r() < 0.7:
                 ch.append(("a", "val", str(rng.choice(INT_POOL))))
-            if r() < 0.4:
-                ch.append(("a", "tc", [("a", "z", rng.choice(STR_POOL))] if r() < 0.8 else []))
+            if r() < 0.6:
+                tc = []
+                if r() < 0.6:
+                    tc.append(("a", "z", rng.choice(STR_POOL)))
+                eks = rng.sample(KEY_POOL[:8], rng.choice([0, 1, 2, 3, 4]))
+                if r() < 0.7:
+                    tc.append(("a", "sel", rng.choice(eks) if eks and r() < 0.8 else rng.choice(KEY_POOL)))
+                for ek in eks:
+                    tc.append(("a", "e", [("a", "k", ek)] + ([("a", "v", rng.choice(STR_POOL))] if r() < 0.5 else [])))
+                ch.append(("a", "tc", tc))
             self.x.append(("a", "top", ch))
         # the last top-level node: a leaf (b:tl) provokes the get_node_pos() restart crash, a container with a child
         # (b:bt/q) does not
@@ -571,17 +584,17 @@ def parse(s):
 # generators
 # ------------------------------------------------------------------------------------------------
 SCHEMA_NAMES = [("a", n) for n in ["c", "s", "n", "d", "bo", "e", "dn", "ds", "u", "ll", "ln", "l1", "k", "v", "w", "in", "x",
-                                   "y", "t", "l2", "k1", "k2", "lu", "np", "z", "p", "q", "tl", "tll", "top", "id", "val", "tc"]] + \
+                                   "y", "t", "l2", "k1", "k2", "lu", "np", "z", "p", "q", "tl", "tll", "top", "id", "val", "tc", "ca", "cb", "sel", "e"]] + \
                [("b", n) for n in ["s", "bx", "bc", "m", "v", "tl", "bt", "q"]]
 CHILDREN = {None: [("a", "c"), ("a", "tl"), ("a", "tll"), ("a", "top"), ("b", "tl"), ("b", "bt")],
             ("a", "c"): [("a", n) for n in ["s", "n", "d", "bo", "e", "dn", "ds", "u", "ll", "ln", "l1", "l2", "lu", "np", "p"]] +
                         [("b", "s"), ("b", "bx"), ("b", "bc")],
-            ("a", "l1"): [("a", "k"), ("a", "v"), ("a", "w"), ("a", "in"), ("a", "t"), ("b", "v")],
+            ("a", "l1"): [("a", "k"), ("a", "v"), ("a", "w"), ("a", "in"), ("a", "t"), ("a", "ca"), ("a", "cb"), ("b", "v")],
             ("a", "in"): [("a", "x"), ("a", "y")],
             ("a", "l2"): [("a", "k1"), ("a", "k2"), ("a", "v")],
             ("a", "lu"): [("a", "k"), ("a", "v")],
             ("a", "np"): [("a", "z")], ("a", "p"): [("a", "q")],
-            ("a", "top"): [("a", "id"), ("a", "val"), ("a", "tc")], ("a", "tc"): [("a", "z")],
+            ("a", "top"): [("a", "id"), ("a", "val"), ("a", "tc")], ("a", "tc"): [("a", "z"), ("a", "sel"), ("a", "e")], ("a", "e"): [("a", "k"), ("a", "v")],
             ("b", "bc"): [("b", "s"), ("b", "m")], ("b", "bt"): [("b", "q")]}
 NUM_LITS = ["0", "1", "2", "3", "5", "10", "1.5", "2.5", "0.5", "0.25", "12", "7", "100", "0.1", "3.75"]
 
@@ -877,6 +890,9 @@ FIXED_EXPRS = [
     "count(//@*)", "count(//@*/@*)", "@*[1]/..", "//*/@*[1]", "/b:bt | //.//a:z | ./descendant::a:c/a:y", "/descendant-or-self::*//a:np/a:z[true()]",
     "count(//*/*)", "count(//*//*)", "/descendant::*//a:k", "/a:c/a:l1[a:k=../a:ll]", "false() >= /a:c/a:ln", "true() <= /a:c/a:l1/a:v",
     "substring('12345', 1, 10000000000)", "substring('12345', - 10000000000, 20000000000)", "substring(0.1, /a:zz)", "ceiling(100000000000000000000)",
+    "/a:c/a:l1[a:k=/a:c/a:zz]", "/a:c/a:l1[a:k=/a:zz]", "/a:c/a:l1[a:k='']", "/a:c/a:l1[a:k=a:ca]", "/a:c/a:l1[a:k=a:cb]", "/a:c/a:l1[a:k=a:ca | a:cb]",
+    "/a:top/a:tc/a:e[a:k=../a:sel]", "/a:top/a:tc/a:e[a:k=../../a:id]", "//a:e[a:k=../a:sel]", "/a:top/a:tc/a:e[a:k=/a:tl]", "/a:top/a:tc/a:e[a:k='x']",
+    "/a:c/a:l1[a:k=current()/../a:s]", "/a:c/a:l1[a:k=/a:c/a:s]", "/a:c/a:l1[a:k=/a:c/a:ll]", "/a:c/a:l1[a:k=/a:c/a:ll[3]]", "/a:c/a:l1[a:k=string(/a:c/a:zz)]",
     "/a:c/s", "/a:c/bx", "/a:c/descendant::s", "/tl", "/c/s", "/a:c/l1/k", "/a:c/a:l1/v", "//s", "//v", "/a:c/b:bc/s", "/c/l1[k='a']",
 ]
 
@@ -887,7 +903,15 @@ KEY_DEP = ["/a:c/a:l1[a:k=a:w]", "/a:c/a:l1[a:k=a:in/a:x]", "/a:c/a:l1[a:k=a:t]"
            "/a:c/a:l2[a:k1=a:v][a:k2=%s]", "/a:c/a:l2[a:k1=%s][a:k2=a:v]", "/a:top[a:id=a:val]", "/a:top[a:id=a:tc/a:z]",
            "/a:c/a:l1[a:k=.//a:x]", "/a:c/a:l1[a:k=descendant::a:x]", "/a:c/a:l1[a:k=string(a:w)]", "/a:c/a:l1[a:k=position()]",
            "/a:c/a:lu[a:k=last()]", "/a:c/a:lu[a:k=count(../a:lu)]", "/a:c/a:l1[a:k=../a:s]", "/a:c/a:l1[a:k=/a:tl]",
-           "/a:c/a:l1[a:k=../a:ll]", "/a:c/a:l1[a:k=../a:ll[1]]", "/a:c/a:lu[a:k=../a:u]", "/a:c/a:l1[a:k=current()]"]
+           "/a:c/a:l1[a:k=../a:ll]", "/a:c/a:l1[a:k=../a:ll[1]]", "/a:c/a:lu[a:k=../a:u]", "/a:c/a:l1[a:k=current()]",
+           # the value is an empty node-set (never equal, also not to an empty key), a leaf under a choice of the list,
+           # a path relative to a parent that differs per instance, paths from current()
+           "/a:c/a:l1[a:k=/a:c/a:zz]", "/a:c/a:l1[a:k=/a:zz]", "/a:c/a:l1[a:k=../a:zz]", "/a:top[a:id=/a:c/a:zz]", "/a:c/a:l1[a:k=/a:c/a:s]",
+           "/a:c/a:l1[a:k=a:ca]", "/a:c/a:l1[a:k=a:cb]", "/a:c/a:l1[a:k=a:ca or a:k=a:cb]", "/a:c/a:l1[a:k=a:ca | a:cb]",
+           "/a:top/a:tc/a:e[a:k=../a:sel]", "/a:top/a:tc/a:e[a:k=../../a:id]", "/a:top/a:tc/a:e[a:k=../a:z]", "//a:e[a:k=../a:sel]",
+           "/a:top/a:tc/a:e[a:k=/a:tl]", "/a:top/a:tc/a:e[a:k=current()]", "/a:c/a:l1[a:k=current()/../a:s]", "/a:c/a:l1[a:k=current()/a:k]",
+           "/a:top[a:id=current()/../a:id]", "/a:c/a:l1[a:k=string(/a:c/a:zz)]", "/a:c/a:l1[a:k=string(../a:s)]", "/a:c/a:l1[a:k=/a:c/a:ll]",
+           "/a:c/a:l1[a:k=/a:c/a:ll[1]]", "/a:c/a:l2[a:k1=/a:c/a:zz][a:k2=1]", "/a:c/a:l2[a:k1='a'][a:k2=/a:c/a:zz]"]
 
 
 def targeted(rng, nodes, g):
@@ -1115,11 +1139,11 @@ def fixed_switches():
 FIXED_XML = ('<c xmlns="urn:a"><s>hello</s><n>5</n><d>2.50</d><u>12</u><ll>x</ll><ll>y</ll><ll>5.0</ll><ll>5</ll><ln>7</ln><ln>3</ln>'
              '<l1><k>5.0</k><v>1</v><in><x>q</x></in><t>t1</t><t>t2</t></l1><l1><k>b</k><v>2</v></l1>'
              '<l1><k>c</k><v>3</v><w>c</w><in><x>r</x><y>9</y></in><t>u</t></l1><l1><k>1e3</k><in><x>1e3</x></in></l1><l1><k>2</k><v xmlns="urn:b">bv</v></l1>'
-             '<l1><k>12</k><in/></l1><l1><k>true</k></l1>'
+             '<l1><k>12</k><in/><ca>12</ca></l1><l1><k>true</k><cb>b</cb></l1><l1><k></k><ca>x</ca></l1><l1><k>q</k><cb>q</cb></l1>'
              '<l2><k1>a</k1><k2>1</k2><v>v1</v></l2><l2><k1>a</k1><k2>2</k2><v>v2</v></l2><l2><k1>5</k1><k2>5</k2></l2>'
              '<lu><k>5</k><v>2.5</v></lu><lu><k>1</k></lu><lu><k>12</k><v>12.0</v></lu><lu><k>3</k><v>0.5</v></lu>'
              '<s xmlns="urn:b">bs</s><bx xmlns="urn:b">BX</bx><bc xmlns="urn:b"><s>in</s><m>4</m></bc>'
-             '</c><tl xmlns="urn:a">atl</tl><top xmlns="urn:a"><id>5</id><val>10</val></top><top xmlns="urn:a"><id>true</id><val>-3</val><tc><z>Z</z></tc></top>'
+             '</c><tl xmlns="urn:a">atl</tl><top xmlns="urn:a"><id>5</id><val>10</val><tc><sel>x</sel><e><k>x</k></e><e><k>y</k><v>1</v></e></tc></top><top xmlns="urn:a"><id>true</id><val>-3</val><tc><z>Z</z><sel>y</sel><e><k>x</k></e><e><k>y</k></e><e><k></k></e></tc></top>'
              '%s')
 FIXED_TAILS = ['<bt xmlns="urn:b"><q>Q</q></bt>', '<tl xmlns="urn:b">btl</tl>']
 
@@ -1378,6 +1402,8 @@ class XPathSan:
         return L
 
     def judge(self, line, out):
+        if out.endswith(" LEAK"):
+            return (None, "XPath %r: memory leaked by the evaluation" % unhex(line.split("\t")[5]).decode("utf-8", "replace"))
         if not (out.startswith("CRASH(") or out == "TIMEOUT"):
             return None
         err = getattr(self, "last_err", "")
@@ -1403,7 +1429,9 @@ class XPathRegress:
     assertion or a wrong result before /repo c81b782, 66a156b, 8f32ad9, b416a60, 1448716."""
     name = "xpath-regress"
     driver = "t_xpath"
-    quick_sanitize = False
+    kinds = ["rel", "asan"]
+    quick_sanitize = True          # also in the quick tier under ASan: the driver checks for leaks after every case
+    leaks = True
     # dump of XML_M: c 0, x 1..4, y 5, e 6
     CASES = [("count(/m:c/m:x/@*)", "F:3p1:36"), ("count(/m:c/*/@*)", "F:7p0:37"), ("count(//@*)", "F:7p0:37"),
              ("/m:c/m:x/@m:a1[1]/..", "N:e1"), ("/m:c/m:x/@m:a1[last()]/..", "N:e4"), ("/m:c/m:x/@*[2]/..", "N:e1"),
@@ -1430,6 +1458,8 @@ class XPathRegress:
         f = line.split("\t")
         e = unhex(f[5] if f[0] == "xp" else f[2]).decode()
         exp = dict(self.CASES if f[0] == "xp" else self.ATOMS)[e]
+        if out.endswith(" LEAK"):
+            return (None, "%r: memory leaked by the evaluation %s" % (e, getattr(self, "last_err", "")[-400:]))
         got = out[:-5] if out.endswith(" A:ok") else out
         if got != exp:
             return (None, "%s %r: libyang answers %s, expected %s %s" % ("XPath" if f[0] == "xp" else "atoms of", e, out, exp,
